@@ -23,18 +23,20 @@ OVERLAP = [DecAll(), DecHi(1, 1)]      # not disjoint: outside the theorems' hyp
 
 def _alpha(n, m, level):
     """level 2: every control combination (cyc/stb/we independent, ack&err together); 1: protocol-shaped
-    (idle/request, silent/ack/err); 0: reduced (three addresses, silent/ack)."""
+    (idle/request on every address, silent/ack/err); 0: reduced (three addresses, silent/ack);
+    -1: reduced, and at most one slave acknowledges per cycle."""
     if level == 2:
         return small_alphabet(n, m, full=True, slave_full=True)
     if level == 1:
         return small_alphabet(n, m)
-    letters = small_alphabet(n, m, adrs=(0, 1, 2))
-    # drop err letters
     keep = []
-    for l in letters:
+    for l in small_alphabet(n, m, adrs=(0, 1, 2)):
         ss = wblib.split_letter(l, n, m)[1]
-        if all(not s[1] for s in ss):
-            keep.append(l)
+        if any(s[1] for s in ss):
+            continue                      # no err letters
+        if level < 0 and sum(s[0] for s in ss) > 1:
+            continue
+        keep.append(l)
     return keep
 
 
@@ -54,73 +56,104 @@ def _region_map(rng, m, data_width=32):
     return out
 
 
+def _levels(tier, kind, n, m, reg, to, second_map):
+    """Alphabet level of a mode-A instance, or None to skip it in this tier (budget: see BUILD_GUIDE §5)."""
+    size = n * m
+    if tier != "quick":
+        if kind == "shared":
+            return 2 if size <= 4 else 1
+        if size <= 2 or (size <= 4 and not reg):
+            return 2
+        return -1 if (reg and size == 9) else 1
+    # quick tier
+    if kind == "shared":
+        if second_map and (size >= 6 or reg != (to is not None)):
+            return None
+        if size <= 2:
+            return 2
+        if size == 4:
+            return 1 if (reg and to) or second_map else 2
+        if size == 3:
+            return 1
+        return 1 if not (reg or to) else 0
+    if second_map and (size >= 6 or reg):
+        return None
+    if size <= 2:
+        return 2
+    if size == 4:
+        return 1 if (reg or second_map) else 2
+    if size == 3:
+        return 1
+    if size == 9:
+        return None if reg else -1       # registered 3x3 crossbar: 1728 states, thorough tier / random walk
+    return -1 if reg else 0
+
+
 def jobs(tier, seed=0):
     quick = tier == "quick"
     rng = random.Random(seed * 104729 + 6)
     J = []
     cap = 60000 if quick else 2000000
 
-    def A(mk):
+    def A(mk, cost=0):
         J.append(Job("A", mk, max_states=cap))
+        J[-1].cost = cost
 
     def B(mk, cycles=None):
-        J.append(Job("B", mk, cycles=cycles or (4000 if quick else 40000), runs=1 if quick else 3))
+        J.append(Job("B", mk, cycles=cycles or (1500 if quick else 15000), runs=1 if quick else 2))
+        J[-1].cost = J[-1].kw["cycles"] * J[-1].kw["runs"] * 4
 
     # ---- mode A: exhaustive product exploration -------------------------------------------------------------
     A(lambda: make_p2p(alphabet=small_alphabet(1, 1, full=True, slave_full=True)))
     for n in (1, 2, 3):
         for m in (1, 2, 3):
-            for mapname, decs in MAPS[m]:
+            for mi, (mapname, decs) in enumerate(MAPS[m]):
                 for reg in (False, True):
                     for to in (None, 2):
-                        big = n * m >= 6
-                        if quick:
-                            # quick: every shape once with the first map; the second map only where it is cheap
-                            if mapname != MAPS[m][0][0] and (big or reg != (to is not None)):
-                                continue
-                            level = 2 if n * m <= 2 else (1 if not big else (1 if not (reg or to) else 0))
-                            if n * m == 4:
-                                level = 2 if not (reg and to) else 1
-                        else:
-                            level = 2 if n * m <= 4 else 1
+                        level = _levels(tier, "shared", n, m, reg, to, mi > 0)
+                        if level is None:
+                            continue
                         name = "Shared %dx%d %s%s%s a%d" % (n, m, mapname, " reg" if reg else "",
                                                            " to=2" if to else "", level)
                         A(lambda n=n, m=m, decs=decs, reg=reg, to=to, level=level, name=name:
-                          make_shared(n, decs, register=reg, timeout=to, alphabet=_alpha(n, m, level), name=name))
+                          make_shared(n, decs, register=reg, timeout=to, alphabet=_alpha(n, m, level), name=name),
+                          _cost("shared", n, m, reg, to, level))
                     # crossbar (timeout_cycles is accepted and ignored by the real code)
-                    big = n * m >= 6
-                    if quick:
-                        if mapname != MAPS[m][0][0] and (big or reg):
-                            continue
-                        level = 2 if n * m <= 2 else (1 if n * m <= 4 and not (reg and n * m == 4) else 0)
-                        if n * m == 4 and not reg:
-                            level = 2
-                        if n * m == 9 and reg:
-                            continue            # 1728 states: thorough tier / mode B
-                    else:
-                        level = 2 if n * m <= 2 or (n * m <= 4 and not reg) else (1 if not (reg and n * m == 9) else 0)
+                    level = _levels(tier, "xbar", n, m, reg, None, mi > 0)
+                    if level is None:
+                        continue
                     name = "Crossbar %dx%d %s%s a%d" % (n, m, mapname, " reg" if reg else "", level)
                     A(lambda n=n, m=m, decs=decs, reg=reg, level=level, name=name:
                       make_xbar(n, decs, register=reg, alphabet=_alpha(n, m, level), name=name,
-                                timeout_arg=2 if reg else None))
+                                timeout_arg=2 if reg else None), _cost("xbar", n, m, reg, None, level))
     A(lambda: make_shared(2, OVERLAP, register=True, timeout=2, alphabet=_alpha(2, 2, 1), name="Shared 2x2 overlap reg to=2 a1"))
     A(lambda: make_xbar(2, OVERLAP, register=False, alphabet=_alpha(2, 2, 1), name="Crossbar 2x2 overlap a1"))
     A(lambda: make_shared(2, MAPS[2][0][1], timeout=0, alphabet=_alpha(2, 2, 1), name="Shared 2x2 cover to=0 a1"))
     A(lambda: make_shared(2, MAPS[2][0][1], timeout=3, alphabet=_alpha(2, 2, 1), name="Shared 2x2 cover to=3 a1"))
 
     # ---- mode B: 32-bit fabrics, SoCRegion maps, protocol-following masters/slaves with random latencies -----
-    shapes = [(3, 3), (2, 3), (4, 2)] if quick else [(3, 3), (2, 3), (4, 2), (1, 4), (4, 4), (3, 1)]
-    for (n, m) in shapes:
-        decs = _region_map(rng, m)
-        for reg in (False, True):
-            for to in ((None, 8) if quick else (None, 8, 1000000, 1)):
-                name = "Shared %dx%d regions%s%s/32b [%s]" % (n, m, " reg" if reg else "", " to=%s" % to if to is not None else "",
-                                                             " ".join(d.word() for d in decs))
-                B(lambda n=n, decs=decs, reg=reg, to=to, name=name:
-                  make_shared(n, decs, register=reg, timeout=to, data_width=32, adr_width=30, name=name))
-            name = "Crossbar %dx%d regions%s/32b [%s]" % (n, m, " reg" if reg else "", " ".join(d.word() for d in decs))
-            B(lambda n=n, decs=decs, reg=reg, name=name:
-              make_xbar(n, decs, register=reg, data_width=32, adr_width=30, name=name))
+    if quick:
+        grid = [(3, 3, False, None), (3, 3, True, 8), (3, 3, True, None), (3, 3, False, 8), (2, 3, True, 1000000), (4, 2, False, 8)]
+        xgrid = [(3, 3, False), (3, 3, True), (4, 2, True)]
+    else:
+        grid = [(3, 3, reg, to) for reg in (False, True) for to in (None, 8, 1000000, 1)]
+        grid += [(n, m, reg, to) for (n, m) in [(2, 3), (4, 2), (1, 4), (4, 4), (3, 1)]
+                 for (reg, to) in ((False, None), (True, 8), (False, 3))]
+        xgrid = [(n, m, reg) for (n, m) in [(3, 3), (2, 3), (4, 2), (1, 4), (4, 4), (3, 1)] for reg in (False, True)]
+    maps = {}
+    for (n, m) in sorted({(g[0], g[1]) for g in grid + xgrid}):
+        maps[(n, m)] = _region_map(rng, m)
+    for (n, m, reg, to) in grid:
+        decs = maps[(n, m)]
+        name = "Shared %dx%d regions%s%s/32b [%s]" % (n, m, " reg" if reg else "", " to=%s" % to if to is not None else "",
+                                                     " ".join(d.word() for d in decs))
+        B(lambda n=n, decs=decs, reg=reg, to=to, name=name:
+          make_shared(n, decs, register=reg, timeout=to, data_width=32, adr_width=30, name=name))
+    for (n, m, reg) in xgrid:
+        decs = maps[(n, m)]
+        name = "Crossbar %dx%d regions%s/32b [%s]" % (n, m, " reg" if reg else "", " ".join(d.word() for d in decs))
+        B(lambda n=n, decs=decs, reg=reg, name=name:
+          make_xbar(n, decs, register=reg, data_width=32, adr_width=30, name=name))
     # whole-address-space region (decoder returns `lambda a: True`) and a 64-bit fabric
     B(lambda: make_shared(2, [DecRegion(0, 1 << 32)], data_width=32, adr_width=30, name="Shared 2x1 region=all/32b"))
     d64 = _region_map(rng, 2)
@@ -129,8 +162,19 @@ def jobs(tier, seed=0):
     B(lambda: make_p2p(data_width=32, adr_width=30))
     # random walks over the small alphabets (3x3 registered crossbar is too large for exhaustive exploration)
     B(lambda: _walker(make_xbar(3, MAPS[3][0][1], register=True, alphabet=_alpha(3, 3, 1), name="Crossbar 3x3 cover reg walk")),
-      cycles=8000 if quick else 100000)
-    return J
+      cycles=4000 if quick else 60000)
+    # longest jobs first (the pool hands jobs out in list order)
+    return sorted(J, key=lambda job: -getattr(job, "cost", 0))
+
+
+def _cost(kind, n, m, reg, to, level):
+    """Rough number of evaluator steps of a mode-A job (letters x reachable states x netlist size)."""
+    letters = {2: 14 ** n * 4 ** m, 1: 5 ** n * 3 ** m, 0: 4 ** n * 2 ** m, -1: 4 ** n * (m + 1)}[level]
+    if kind == "shared":
+        states = n * ((m + 1) if reg else 1) * (3 if to else 1)
+    else:
+        states = n ** m * ((m + 1) ** n if reg else 1)
+    return letters * states * (1 + n * m / 3.0)
 
 
 class _Walk:
@@ -353,13 +397,29 @@ def search(ctx, disagreements, proof_info):
     (3) protocol-following and random-letter runs of every instance."""
     deadline = time.time() + (60 if ctx.tier == "quick" else 600)
     all_jobs = getattr(ctx, "jobs", None) or jobs(ctx.tier, ctx.seed)
+    best = None
     for d in disagreements:
         kind = getattr(d, "kind", None) or (d.get("kind") if isinstance(d, dict) else "")
-        if kind.startswith("monitor:"):
-            if isinstance(d, dict):
-                return dict(d, letter_format=FMT)
-            return {"instance": d.inst_name, "trace": [list(l) for l in d.trace], "monitor": kind[8:],
-                    "letter_format": FMT}
+        if not kind.startswith("monitor:"):
+            continue
+        if isinstance(d, dict):
+            return dict(d, letter_format=FMT)
+        cand = {"instance": d.inst_name, "trace": [list(l) for l in d.trace], "monitor": kind[8:], "letter_format": FMT}
+        j = getattr(d, "job", None)
+        if j is not None and time.time() < deadline:
+            # minimise: drop cycles while the monitor still fires on the real code
+            inst = all_jobs[j].make()
+            tr = shrink(inst, [tuple(l) for l in d.trace])
+            r = replay_with_monitor(inst, tr)
+            if r:
+                cand["trace"] = [list(l) for l in tr[:r[0] + 1]]
+                cand["monitor"] = r[1]
+        if best is None or len(cand["trace"]) < len(best["trace"]):
+            best = cand
+        if len(best["trace"]) <= 4:
+            break
+    if best is not None:
+        return best
     by_job = {}
     for d in disagreements:
         if not isinstance(d, dict):
